@@ -23,3 +23,5 @@ import Postcard.Props.C12Exact
 #print axioms Postcard.encMax_not_attained_option_empty_payload
 #print axioms Postcard.listed_tight
 #print axioms Postcard.c12_decided_by_encMax
+#print axioms Postcard.listed_populated
+#print axioms Postcard.c12_listed_iff
